@@ -85,6 +85,10 @@ func (w *World) Expectation(rec *ScanRecord, gr *GroupRec) Expect {
 		return ex
 	}
 	if U < gr.EffMin {
+		if gr.Locked {
+			ex.Kind = "locked" // the lock is checked before any scaling activity
+			return ex
+		}
 		ex.Kind, ex.N = "recover", gr.EffMin-U
 		return ex
 	}
@@ -340,6 +344,13 @@ func (w *World) M03(rec *ScanRecord) []Violation {
 
 func cachedDesired(w *World, rec *ScanRecord, g int) int64 { return rec.ASGs[w.CloudName(g)].Desired }
 
+// desiredAtScaleUp is the group's real desired capacity when the scale-up decision of the
+// scan is taken: the refreshed value minus the terminations accepted earlier in the scan
+// (force removal runs before the scaling action).
+func desiredAtScaleUp(w *World, rec *ScanRecord, gr *GroupRec) int64 {
+	return cachedDesired(w, rec, gr.G) - int64(len(gr.TermOK))
+}
+
 // increaseTarget is the group size a cloud increase request aims at: the value sent for
 // SetDesiredCapacity; for a fleet, the real desired capacity at that moment plus the fleet size.
 func increaseTarget(w *World, rec *ScanRecord, gr *GroupRec, e sim.Entry) int64 {
@@ -398,7 +409,7 @@ func (w *World) M04(rec *ScanRecord) []Violation {
 		if lower <= 0 {
 			continue
 		}
-		cur := cachedDesired(w, rec, gr.G)
+		cur := desiredAtScaleUp(w, rec, gr)
 		if cur+lower > B {
 			targets, _ := requestedTargets(w, rec, gr)
 			switch {
@@ -453,7 +464,7 @@ func (w *World) M05(rec *ScanRecord) []Violation {
 		}
 		got := K + R
 		B := w.Bound(rec, gr)
-		cur := cachedDesired(w, rec, gr.G)
+		cur := desiredAtScaleUp(w, rec, gr)
 		targets, _ := requestedTargets(w, rec, gr)
 		clamped := (len(targets) > 0 && targets[0] >= B) || (len(targets) == 0 && cur >= B)
 		if got > ex.Need+1 {
@@ -499,7 +510,7 @@ func (w *World) M06(rec *ScanRecord) []Violation {
 			if k > 0 {
 				out = append(out, viol("C06", "trigger-tainted", "group %d: starve=%v maxage=%v but %d nodes tainted", gr.G, ex.Starve, ex.MaxAge, k))
 			}
-			if un == 0 && inc == 0 && (len(gr.GV.Tainted) > 0 || cachedDesired(w, rec, gr.G) < w.Bound(rec, gr)) {
+			if un == 0 && inc == 0 && (len(gr.GV.Tainted) > 0 || desiredAtScaleUp(w, rec, gr) < w.Bound(rec, gr)) {
 				out = append(out, viol("C06", "trigger-no-scale-up", "group %d: starve=%v maxage=%v but nothing brought in", gr.G, ex.Starve, ex.MaxAge))
 			}
 			continue
@@ -520,7 +531,7 @@ func (w *World) M06(rec *ScanRecord) []Violation {
 					return true
 				}
 				// nothing to reuse and no headroom under either maximum
-				return len(gr.GV.Tainted) == 0 && cachedDesired(w, rec, gr.G) >= w.Bound(rec, gr)
+				return len(gr.GV.Tainted) == 0 && desiredAtScaleUp(w, rec, gr) >= w.Bound(rec, gr)
 			}
 		}
 		good := false
@@ -604,7 +615,7 @@ func (w *World) M07(rec *ScanRecord) []Violation {
 		}
 		P := int64(len(gr.GV.Tainted))
 		B := w.Bound(rec, gr)
-		cur := cachedDesired(w, rec, gr.G)
+		cur := desiredAtScaleUp(w, rec, gr)
 		switch {
 		case ex.Kind == "recover":
 			N := int64(ex.N)
